@@ -16,6 +16,7 @@ import (
 	"os/exec"
 	"sort"
 	"strings"
+	"time"
 
 	"github.com/benoitkugler/gomacro/generator"
 	"github.com/benoitkugler/gomacro/verifhook"
@@ -195,7 +196,15 @@ func (s *sched) run() bool {
 		t := en[c]
 		s.cur = t
 		t.resume <- struct{}{}
-		<-s.back
+		select {
+		case <-s.back:
+		case <-time.After(60 * time.Second):
+			// not an oracle: a guard against hanging for ever. A step between two scheduling points is
+			// microseconds of straight-line code; a minute without reaching one means the goroutine
+			// blocks on something the stand-ins do not hook (a channel, a real lock, I/O).
+			fmt.Println("INTERNAL ERROR: a goroutine blocked on an operation the scheduler does not see (channel, real lock, I/O): the exploration cannot continue")
+			os.Exit(2)
+		}
 	}
 }
 
